@@ -208,3 +208,9 @@ package builder
 //@ typeinv data/builder.shard: entry-is-a-shard-or-a-link: forall k int :: maphas(self.children, k) ==> (mapget(self.children, k).shard != nil) != (mapget(self.children, k).hamtLink != nil)
 //@ inst lemma entry-is-a-shard-or-a-link: k: k
 //@ typeinv data/builder.shard: 1 <= self.sizeLg2 && self.sizeLg2 <= 10 && self.size == (1 << self.sizeLg2) && self.children != nil && 1 <= self.width && self.width <= 14 && self.size - 1 < (1 << (4 * self.width)) && (self.width == 1 || (1 << (4 * (self.width - 1))) <= self.size - 1)
+
+// Behavioural subtyping (io.Writer): hinput(w) is the byte string handed to w.Write so far; the
+// byte counter forwards every write and is itself a writer in that sense.
+//@ func (*data/builder.byteCounter).Write
+//@ domain not-wrapping-itself: bc.w != bc
+//@ at return ghost hinput(bc) = ite(hinput(bc) == "", str(p), cat(hinput(bc), str(p)))
